@@ -6,11 +6,11 @@ package c04
 // certificate in the agent.
 
 import (
-	"strings"
 	"context"
 	"fmt"
 	"os"
 	"path/filepath"
+	"strings"
 	"testing"
 	"time"
 
@@ -33,6 +33,8 @@ type RealCase struct {
 	NCerts int
 	BigAt  int
 	BigKB  int // size of the big certificate's padding in KiB (0 = 50)
+	// Again: the run is made twice on the same signer, agent and endpoints
+	Again bool
 }
 
 func execReal(c RealCase) (vh.Outcome, error) {
@@ -115,92 +117,106 @@ func execReal(c RealCase) (vh.Outcome, error) {
 			}
 		}
 	}
-	before := certsIn()
-	callsBefore := 0
-	for _, s := range g.Servers {
-		callsBefore += len(s.Calls())
-	}
-	ctx, cancel := context.WithCancel(context.Background())
-	switch c.Ctx {
-	case "cancelled":
-		cancel()
-	case "expired":
-		cancel()
-		ctx, cancel = context.WithDeadline(context.Background(), time.Now().Add(-time.Second))
-	case "short":
-		cancel()
-		ctx, cancel = context.WithTimeout(context.Background(), 150*time.Millisecond)
-	}
-	defer cancel()
-	rerr, ierr := runOne(ctx)
-	if ierr != nil {
-		if strings.HasPrefix(ierr.Error(), "Run crashed") {
-			return out, ierr
+	judge := func(iter int) (vh.Outcome, error) {
+		before := certsIn()
+		callsBefore := 0
+		for _, s := range g.Servers {
+			callsBefore += len(s.Calls())
+		}
+		ctx, cancel := context.WithCancel(context.Background())
+		switch c.Ctx {
+		case "cancelled":
+			cancel()
+		case "expired":
+			cancel()
+			ctx, cancel = context.WithDeadline(context.Background(), time.Now().Add(-time.Second))
+		case "short":
+			cancel()
+			ctx, cancel = context.WithTimeout(context.Background(), 150*time.Millisecond)
+		}
+		defer cancel()
+		rerr, ierr := runOne(ctx)
+		if ierr != nil {
+			if strings.HasPrefix(ierr.Error(), "Run crashed") {
+				return out, ierr
+			}
+			return out, nil
+		}
+		after := certsIn()
+		newCerts := 0
+		for b := range after {
+			if !before[b] {
+				newCerts++
+			}
+		}
+		signedNow := 0
+		for _, s := range g.Servers {
+			signedNow += len(s.Calls())
+		}
+		signedNow -= callsBefore
+		desc := fmt.Sprintf("context %s, endpoints %v, retries %d, earlier generation %v, %d certificate(s) per reply", c.Ctx, c.Endpoints, c.Retries, c.Stale, c.NCerts)
+		if rerr == nil {
+			if newCerts == 0 {
+				return out, vh.Errf("%s: Run reported success but no new certificate is in the agent (%d -> %d certificates; the endpoints received %d request(s))", desc, len(before), len(after), signedNow)
+			}
+			if signing < 0 {
+				return out, vh.Errf("%s: Run reported success although no endpoint signs", desc)
+			}
+			want := c.NCerts
+			if want <= 0 {
+				want = 1
+			}
+			if newCerts != want {
+				return out, vh.Errf("%s: Run reported success; the CA returned %d certificate(s) per reply (number %d padded with %d KiB) but %d new certificate(s) are in the agent", desc, want, c.BigAt, c.BigKB, newCerts)
+			}
+			if c.BigAt > 0 {
+				out.Classes = append(out.Classes, "reply-with-a-certificate-line>64KiB")
+			}
+			return out, nil
+		}
+		if kind := vh.ErrKind(rerr); kind != "SignerSignErr" {
+			// with a dead context the agent side may fail first; any typed error is a failure report
+			if kind == "" || kind == "nil" {
+				return out, vh.Errf("%s: Run failed with an untyped error: %v", desc, rerr)
+			}
+		}
+		if newCerts != 0 {
+			return out, vh.Errf("%s: Run failed (%v) but %d new certificate(s) reached the agent", desc, rerr, newCerts)
+		}
+		if c.Ctx == "live" && signing >= 0 {
+			hang := false
+			for _, b := range c.Endpoints[:signing] {
+				hang = hang || b == "hang"
+			}
+			if !hang {
+				return out, vh.Errf("%s: a live context and a signing endpoint, yet Run failed: %v", desc, rerr)
+			}
 		}
 		return out, nil
 	}
-	after := certsIn()
-	newCerts := 0
-	for b := range after {
-		if !before[b] {
-			newCerts++
-		}
+	o, jerr := judge(0)
+	if jerr != nil || !c.Again {
+		return o, jerr
 	}
-	signedNow := 0
-	for _, s := range g.Servers {
-		signedNow += len(s.Calls())
+	// the same signer and agent serve the next request: it is judged exactly like the first
+	out.Classes = append(out.Classes, "second-run-on-the-same-signer")
+	o2, jerr2 := judge(1)
+	if jerr2 != nil {
+		return o2, vh.Errf("second run on the same signer: %v", jerr2)
 	}
-	signedNow -= callsBefore
-	desc := fmt.Sprintf("context %s, endpoints %v, retries %d, earlier generation %v, %d certificate(s) per reply", c.Ctx, c.Endpoints, c.Retries, c.Stale, c.NCerts)
-	if rerr == nil {
-		if newCerts == 0 {
-			return out, vh.Errf("%s: Run reported success but no new certificate is in the agent (%d -> %d certificates; the endpoints received %d request(s))", desc, len(before), len(after), signedNow)
-		}
-		if signing < 0 {
-			return out, vh.Errf("%s: Run reported success although no endpoint signs", desc)
-		}
-		want := c.NCerts
-		if want <= 0 {
-			want = 1
-		}
-		if newCerts != want {
-			return out, vh.Errf("%s: Run reported success; the CA returned %d certificate(s) per reply (number %d padded with %d KiB) but %d new certificate(s) are in the agent", desc, want, c.BigAt, c.BigKB, newCerts)
-		}
-		if c.BigAt > 0 {
-			out.Classes = append(out.Classes, "reply-with-a-certificate-line>64KiB")
-		}
-		return out, nil
-	}
-	if kind := vh.ErrKind(rerr); kind != "SignerSignErr" {
-		// with a dead context the agent side may fail first; any typed error is a failure report
-		if kind == "" || kind == "nil" {
-			return out, vh.Errf("%s: Run failed with an untyped error: %v", desc, rerr)
-		}
-	}
-	if newCerts != 0 {
-		return out, vh.Errf("%s: Run failed (%v) but %d new certificate(s) reached the agent", desc, rerr, newCerts)
-	}
-	if c.Ctx == "live" && signing >= 0 {
-		hang := false
-		for _, b := range c.Endpoints[:signing] {
-			hang = hang || b == "hang"
-		}
-		if !hang {
-			return out, vh.Errf("%s: a live context and a signing endpoint, yet Run failed: %v", desc, rerr)
-		}
-	}
-	return out, nil
+	return o2, nil
 }
 
 func TestC04RealSigner(t *testing.T) {
 	vh.Run(t, vh.Spec[RealCase]{Property: "C04", Name: "TestC04RealSigner", Journal: true,
-		Rule: "gensign.Run with the real regular handler and the real crypki.Signer (TLS, gRPC, 1..3 endpoints on loopback aliases out of {certifies the request's key, RPC error, no listener, hangs 3 s}, one try per endpoint; a hanging endpoint only in front of the 150 ms context; a signing endpoint answers with 1..3 certificates, in a quarter of the cases one of them a text line longer than 64 KiB - 50 KiB, 200 KiB or 1.2 MiB of padding in an extension) under a live, an already cancelled, an already expired and a 150 ms context, with or without an earlier generation of certificates in the agent. Oracle: Run = nil only if some endpoint signs and every certificate of its reply is in the agent afterwards; otherwise a typed error and no new certificate; with a live context and a signing endpoint not preceded by a hanging one the run succeeds. Non-trivial: a context that is not live, or a first endpoint that does not sign.",
+		Rule: "gensign.Run with the real regular handler and the real crypki.Signer (TLS, gRPC, 1..3 endpoints on loopback aliases out of {certifies the request's key, RPC error, no listener, hangs 3 s}, one try per endpoint; a hanging endpoint only in front of the 150 ms context; a signing endpoint answers with 1..3 certificates, in a quarter of the cases one of them a text line longer than 64 KiB - 50 KiB, 200 KiB or 1.2 MiB of padding in an extension) under a live, an already cancelled, an already expired and a 150 ms context, with or without an earlier generation of certificates in the agent; in half of the cases the run is made a second time on the same signer, agent and endpoints and judged the same way. Oracle: Run = nil only if some endpoint signs and every certificate of its reply is in the agent afterwards; otherwise a typed error and no new certificate; with a live context and a signing endpoint not preceded by a hanging one the run succeeds. Non-trivial: a context that is not live, or a first endpoint that does not sign.",
 		Gen: func(t *rapid.T) RealCase {
 			c := RealCase{Ctx: rapid.SampledFrom([]string{"live", "live", "cancelled", "expired", "short"}).Draw(t, "ctx"), Stale: rapid.Bool().Draw(t, "stale"), Retries: 1}
 			n := rapid.IntRange(1, 3).Draw(t, "n")
 			for i := 0; i < n; i++ {
 				c.Endpoints = append(c.Endpoints, rapid.SampledFrom([]string{"signreq", "signreq", "rpcerr", "nolistener"}).Draw(t, fmt.Sprintf("e%d", i)))
 			}
+			c.Again = rapid.Bool().Draw(t, "again")
 			c.NCerts = rapid.IntRange(1, 3).Draw(t, "ncerts")
 			if rapid.IntRange(0, 3).Draw(t, "big") == 0 {
 				c.BigAt = rapid.IntRange(1, c.NCerts).Draw(t, "bigAt")
